@@ -1550,10 +1550,12 @@ fn main() {
     if closure_cr_run_inputs < 100 {
         run.machinery_failure("the whitespace-alphabet family contains too few inputs with a run of CRs before LF");
     }
-    if tot.execs < 100_000 || tot.interrupted_execs < 1000 || tot.straddle < 1000 || n_boundary < 50 {
+    if !run.has_violations() && (tot.execs < 100_000 || tot.interrupted_execs < 1000 || tot.straddle < 1000 || n_boundary < 50) {
         run.machinery_failure("exploration implausibly small");
     }
-    if n_lifetime < 30 || tot.max_interrupts < 1000 || tot.max_calls < 2000 {
+    // (measured on executions that ran to their end: a reader that gives up under interrupts is a finding,
+    // not a reason to distrust the family)
+    if !run.has_violations() && (n_lifetime < 30 || tot.max_interrupts < 1000 || tot.max_calls < 2000) {
         run.machinery_failure("the long-lived-reader family is too small (executions with >= 1000 isolated Interrupted answers)");
     }
     if n_huge < 100 || huge_longest < 7 * b || huge_two_buffers_then_more_than_one < 20 || tot.max_calls < 7 || tot.max_ask < b {
@@ -1562,7 +1564,13 @@ fn main() {
     if std::env::var("VCORE_CHILD").is_err() {
         // the crash-risky cases, each in a child process of its own, in both build profiles
         let risky = build_risky_cases(b);
-        let jobs: Vec<(&str, &Risky)> = ["release", "dbg"].into_iter().flat_map(|p| risky.iter().map(move |r| (p, r))).collect();
+        // … and, where the workspace has built it, in an unoptimised build (profile `unopt`), in which recursion
+        // stays recursion
+        let exe = std::env::current_exe().map(|e| e.to_string_lossy().to_string()).unwrap_or_default();
+        let have_unopt = std::path::Path::new(&exe.replace("/dbg/", "/release/").replace("/release/", "/unopt/")).exists();
+        run.cov("process_isolated_unoptimised_build_present", have_unopt);
+        let profiles: Vec<&str> = if have_unopt { vec!["release", "dbg", "unopt"] } else { vec!["release", "dbg"] };
+        let jobs: Vec<(&str, &Risky)> = profiles.into_iter().flat_map(|p| risky.iter().map(move |r| (p, r))).collect();
         let results: Vec<Result<Result<(), String>, String>> = jobs.par_iter().map(|(p, r)| r.run_in_child(p)).collect();
         let mut reported = vec![];
         for ((profile, r), res) in jobs.iter().zip(results) {
